@@ -4,5 +4,10 @@ c_NVals == {1, 2, 3}
 c_KVals == {1, 2, 3}
 c_NValsQ == {1, 3}
 c_KValsQ == {1, 3}
+\* long files: 130 segments diverging at 120 (2 -> 3 values), 101 segments diverging in the last one, 230 segments
+\* diverging at 205, 205 segments diverging at segment 201 (3 -> 1)
+c_LongNone == {}
+c_Long == {<<130, 120, 2, 3>>, <<101, 100, 1, 2>>, <<230, 205, 1, 2>>, <<205, 200, 3, 1>>}
+c_LongQ == {<<101, 100, 1, 2>>}
 c_Steps == {1, 2, 3, -1, -2, -3}
 ====
